@@ -18,7 +18,7 @@ theorem C08_type_table : ∀ r ∈ Gen.C08.typeRows, typeRowOk r = true := by de
 /-- Slices, maps for free-form and additional-properties-only objects, named types for references — at top
 level and as optional members (pointers). -/
 theorem C08_shape_table : Gen.C08.shapeRows.all shapeRowOk = true ∧
-    (List.range 11).all (fun sh => Gen.C08.shapeRows.any (fun r => r.shape == sh && !r.asMember) &&
+    (List.range 14).all (fun sh => Gen.C08.shapeRows.any (fun r => r.shape == sh && !r.asMember) &&
       Gen.C08.shapeRows.any (fun r => r.shape == sh && r.asMember)) = true := by decide +kernel
 
 /-- The table enumerates the whole domain: 4 types × 21 formats. -/
@@ -42,15 +42,22 @@ theorem C08_extension_table_complete : ∀ e, e < 11 → (Gen.C08.extRows.any fu
 
 /-- A required, non-nullable, plain member is neither a pointer nor omitempty. -/
 theorem C08_plain_required :
-    docPointer ⟨true, false, false, false, 0, 0, false, false, false, false, false, 0, false⟩ = false ∧
-    docOmit ⟨true, false, false, false, 0, 0, false, false, false, false, false, 0, false⟩ = false := by decide
+    docPointer ⟨true, false, false, false, 0, 0, 0, false, false, false, false, 0, false⟩ = false ∧
+    docOmit ⟨true, false, false, false, 0, 0, 0, false, false, false, false, 0, false⟩ = false := by decide
 
 /-- Optional ⇒ pointer and omitempty; nullable ⇒ pointer and never omitempty (without nullable-type). -/
 theorem C08_optional_nullable (ro wo : Bool) :
-    docPointer ⟨false, false, ro, wo, 0, 0, false, false, false, false, false, 0, false⟩ = true ∧
-    docOmit ⟨false, false, ro, wo, 0, 0, false, false, false, false, false, 0, false⟩ = true ∧
-    docPointer ⟨true, true, ro, wo, 0, 0, false, false, false, false, false, 0, false⟩ = true ∧
-    docOmit ⟨true, true, ro, wo, 0, 0, false, false, false, false, false, 0, false⟩ = false := by
+    docPointer ⟨false, false, ro, wo, 0, 0, 0, false, false, false, false, 0, false⟩ = true ∧
+    docOmit ⟨false, false, ro, wo, 0, 0, 0, false, false, false, false, 0, false⟩ = true ∧
+    docPointer ⟨true, true, ro, wo, 0, 0, 0, false, false, false, false, 0, false⟩ = true ∧
+    docOmit ⟨true, true, ro, wo, 0, 0, 0, false, false, false, false, 0, false⟩ = false := by
   cases ro <;> cases wo <;> decide
+
+/-- `x-go-json-ignore: false` is the same as leaving the extension out: the documentation oracle gives an
+explicitly false extension the cell of the unset one, whatever the other coordinates are. -/
+theorem C08_json_ignore_false_is_unset (r : FieldRow) (h : r.jsonIgnore = 2) :
+    docTagName r = 0 ∧ docTagName { r with jsonIgnore := 0 } = 0 ∧
+    docOmit r = docOmit { r with jsonIgnore := 0 } ∧ docPointer r = docPointer { r with jsonIgnore := 0 } := by
+  simp [docTagName, docOmit, docPointer, h]
 
 end OapiVerif.TypeMap
